@@ -15,6 +15,9 @@ A case is a JSON object
   args      relative names given on the command line (may name nothing)
   answers   lines fed to QUERY prompts
   after     number of options placed after the file arguments (0 = all first)
+  noisy     (optional) "verbose": `--verbose` is put first on the command line; "env": the run is made with
+            PYFLYBY_LOG_LEVEL=DEBUG (both are documented as noise only; only --debug is documented as fail-fast)
+  faults    (optional) {"write": {name: errno name}, "rw": {name: exception name}, "list": {dir name: errno name}}
 
 All random choices come from the `rng` passed in.
 """
@@ -30,7 +33,7 @@ SHORTCUTS = {"print": ["PRINT"], "diff": ["DIFF"], "replace": ["IFCHANGED", "REP
              "interactive": ["IFCHANGED", "DIFF", "QUERY", "REPLACE"]}
 SHORT_FLAGS = {"print": ["--print", "-p"], "diff": ["--diff", "-d"], "replace": ["--replace", "-r"],
                "diff-replace": ["--diff-replace", "-R"], "interactive": ["--interactive", "-i"]}
-ANSWERS = ["y", "n", "", "yes", "Y", " y ", "no", "q", "N", "YES", "maybe", "\tY"]
+ANSWERS = ["y", "n", "", "yes", "Y", " y ", "no", "q", "N", "YES", "maybe", "\tY", "yikes no", "yup", "nay"]
 
 
 def content(kind, k):
@@ -75,7 +78,8 @@ def argv_of(case, root=None):
     n_after = min(int(case.get("after", 0)), len(toks))
     first, last = toks[:len(toks) - n_after], toks[len(toks) - n_after:]
     args = list(case["args"]) if root is None else [os.path.join(root, a) for a in case["args"]]
-    return list(case.get("extra", [])) + first + args + last
+    noisy = ["--verbose"] if case.get("noisy") == "verbose" else []
+    return noisy + list(case.get("extra", [])) + first + args + last
 
 
 # ---------------------------------------------------------------------------------------------
@@ -162,9 +166,13 @@ def safename_probe():
 # failure injection (round 3): one file of a multi-file run fails in each possible way
 # ---------------------------------------------------------------------------------------------
 WRITE_FAULTS = ["EACCES", "EROFS", "ENOSPC", "EDQUOT"]
-RW_FAULTS = ["RuntimeError", "MemoryError", "RecursionError", "SystemExit", "KeyboardInterrupt"]
+# "SystemExit0" = sys.exit(0) inside the rewriter (what --replace-star-imports does when the star-imported
+# package's __init__ calls sys.exit(0)): candidate C09-4
+RW_FAULTS = ["RuntimeError", "MemoryError", "RecursionError", "SystemExit", "KeyboardInterrupt", "SystemExit0"]
+# "list:<errno>": os.listdir of a directory (the argument itself, or a sub-directory met while recursing) fails
+LIST_FAULTS = ["list:EACCES", "sublist:EACCES", "list:EIO"]
 FAULT_KINDS = (["long"] + ["write:" + w for w in WRITE_FAULTS] + ["rw:" + r for r in RW_FAULTS]
-               + ["unparsable", "undecodable", "missing", "dangling"])
+               + ["unparsable", "undecodable", "missing", "dangling"] + LIST_FAULTS)
 FAULT_CONFIGS = [["replace"], ["diff-replace"], ["actions", ["REPLACE"]], ["actions", ["PRINT", "REPLACE"]],
                  ["actions", ["IFCHANGED", "REPLACE", "PRINT"]], ["actions", ["REPLACE", "EXIT1"]],
                  ["actions", ["EXECUTE:echo", "IFCHANGED", "REPLACE"]], ["actions", ["REPLACE", "REPLACE"]]]
@@ -173,6 +181,8 @@ FAULT_CONFIGS = [["replace"], ["diff-replace"], ["actions", ["REPLACE"]], ["acti
 def fault_case(kind, pos, n, cfg, tool="tidy-imports", extra=(), pol=None, k=0):
     """n regular files (changed / unchanged alternating) with the failing one at position `pos`."""
     tree, args, faults = {}, [], {"write": {}, "rw": {}}
+    if kind.startswith(("list:", "sublist:")):
+        faults["list"] = {}
     for i in range(n):
         if i != pos:
             nm = "f%d.py" % i
@@ -195,6 +205,16 @@ def fault_case(kind, pos, n, cfg, tool="tidy-imports", extra=(), pol=None, k=0):
             tree[nm] = ["file", content("B", 799)]
         elif kind == "dangling":
             tree[nm] = ["link", "nowhere.py"]
+        elif kind.startswith(("list:", "sublist:")):
+            nm = "bd%d" % i
+            tree[nm] = ["dir"]
+            tree[nm + "/a.py"] = ["file", content("C", 797)]
+            if kind.startswith("sublist:"):
+                tree[nm + "/locked"] = ["dir"]
+                tree[nm + "/locked/z.py"] = ["file", content("C", 798)]
+                faults["list"][nm + "/locked"] = kind.split(":")[1]
+            else:
+                faults["list"][nm] = kind.split(":")[1]
         args.append(nm)
     opts = [cfg] + ([["symlinks", pol]] if pol else [])
     return dict(tool=tool, extra=list(extra), opts=opts, tree=tree, args=args, answers=[], after=k % 2, faults=faults)
@@ -312,6 +332,76 @@ def gen_opts(rng):
 UNSAFE_TARGETS = os.environ.get("PFB_C09_UNSAFE_TARGET", "1") != "0"
 
 
+# symlinks to directories (candidate C09-3); PFB_C09_DIRLINKS=0 switches the branches off
+DIRLINKS = os.environ.get("PFB_C09_DIRLINKS", "1") != "0"
+
+DIRLINK_SHAPES = ["arg", "child", "arg+real", "chain", "file-through", "nested-arg"]
+DIRLINK_CONFIGS = [["replace"], ["print"], ["actions", ["REPLACE"]], ["actions", ["IFCHANGED", "REPLACE", "PRINT"]]]
+
+
+def dirlink_case(shape, pol, cfg, k=0):
+    """f0.py, <files reached through a symlinked directory, in one of six shapes>, f2.py."""
+    tree = {"f0.py": ["file", content("C", 500 + k)], "f2.py": ["file", content("C" if k % 3 else "U", 501 + k)],
+            "r": ["dir"], "r/e.py": ["file", content("C" if k % 4 else "U", 502 + k)],
+            "r/s": ["dir"], "r/s/z.py": ["file", content("C", 503 + k)]}
+    if shape == "arg":
+        tree["ld"] = ["link", "r"]
+        mid = ["ld"]
+    elif shape == "child":
+        tree["d"] = ["dir"]
+        tree["d/a.py"] = ["file", content("C", 504 + k)]
+        tree["d/v"] = ["link", "../r"]
+        mid = ["d"]
+    elif shape == "arg+real":
+        tree["ld"] = ["link", "r"]
+        mid = ["ld", "r"] if k % 2 else ["r", "ld"]
+    elif shape == "chain":
+        tree["ld2"] = ["link", "r"]
+        tree["ld"] = ["link", "ld2"]
+        mid = ["ld"]
+    elif shape == "file-through":
+        tree["ld"] = ["link", "r"]
+        mid = ["ld/e.py"]
+    else:  # the link points at a sub-directory of a directory that is an argument as well
+        tree["ld"] = ["link", "r/s"]
+        mid = ["ld", "r"]
+    opts = [cfg] + ([["symlinks", pol]] if pol else [])
+    tool, extra = TOOLS[k % 3]
+    return dict(tool=tool, extra=list(extra), opts=opts, tree=tree, args=["f0.py"] + mid + ["f2.py"],
+                answers=[], after=k % 2)
+
+
+def dirlink_exhaustive(tier, rng):
+    out, k = [], 0
+    for shape in DIRLINK_SHAPES:
+        for pol in POLICIES + [None]:
+            for ci, cfg in enumerate(DIRLINK_CONFIGS):
+                k += 1
+                if tier != "thorough" and ci not in (0, 1 + k % 3):
+                    continue
+                out.append(dirlink_case(shape, pol, cfg, k))
+    return out
+
+
+# candidate C09-2: the same failing-file runs with noise switched on (--verbose / PYFLYBY_LOG_LEVEL=DEBUG)
+NOISY_KINDS = ["unparsable", "undecodable", "missing", "dangling", "write:EACCES", "rw:RuntimeError", "long"]
+
+
+def noisy_exhaustive(tier, rng):
+    out, k = [], 0
+    for kind in NOISY_KINDS:
+        for n, pos in ((3, 1), (3, 0), (3, 2), (2, 0)):
+            for ci, cfg in enumerate(FAULT_CONFIGS):
+                k += 1
+                if tier != "thorough" and ci != k % len(FAULT_CONFIGS) and not (ci == 0 and pos <= 1):
+                    continue
+                tool, extra = TOOLS[k % 3]
+                c = fault_case(kind, pos, n, cfg, tool, extra, [None, "skip", "follow"][k % 3], k)
+                c["noisy"] = "verbose" if k % 3 else "env"
+                out.append(c)
+    return out
+
+
 def gen_tree(rng, tool, nfiles=None):
     """Returns (tree, args)."""
     tree, args = {}, []
@@ -374,11 +464,34 @@ def gen_tree(rng, tool, nfiles=None):
             args.append(nm)
         elif r < 0.80:
             args.append("m%d.py" % i)
+        elif r < 0.83 and DIRLINKS:
+            # a symlink to a DIRECTORY as argument (the files below it are reached through the link); sometimes the
+            # real directory or a file named through the link is an argument too
+            rd = "r%d" % i
+            tree[rd] = ["dir"]
+            tree[rd + "/e.py"] = ["file", newc(rng.choice(["C", "C", "U", "X"]))]
+            if rng.random() < 0.4:
+                tree[rd + "/s"] = ["dir"]
+                tree[rd + "/s/z.py"] = ["file", newc("C")]
+            ld = "ld%d" % i
+            tree[ld] = ["link", rd]
+            if rng.random() < 0.2:
+                tree["le%d" % i] = ["link", ld]
+                ld = "le%d" % i
+            r2 = rng.random()
+            args.append(ld if r2 < 0.75 else ld + "/e.py")
+            if r2 < 0.12:
+                args.append(rd)
         elif r < 0.93:
             d = "d%d" % i
             tree[d] = ["dir"]
-            for j, ch in enumerate(rng.sample(["a.py", "b.py", "c.txt", ".h.py", "k.py", "s", "__pycache__"], rng.randint(0, 4))):
-                if ch == "k.py":
+            for j, ch in enumerate(rng.sample(["a.py", "b.py", "c.txt", ".h.py", "k.py", "s", "__pycache__"] + (["v"] if DIRLINKS else []), rng.randint(0, 4))):
+                if ch == "v":     # a symlink to a directory met while recursing
+                    rd = "r%d" % i
+                    tree[rd] = ["dir"]
+                    tree[rd + "/e.py"] = ["file", newc("C")]
+                    tree[d + "/v"] = ["link", "../" + rd]
+                elif ch == "k.py":
                     tn = "t%d.py" % i
                     if tn not in tree:
                         tree[tn] = ["file", newc("C")]
@@ -449,6 +562,8 @@ def gen_case(rng):
     if rng.random() < 0.03:
         opts.insert(rng.randint(0, len(opts)), ["symlinks", "bogus"])
     case = dict(tool=tool, extra=list(extra), opts=opts, tree=tree, args=args, answers=answers, after=after)
+    if rng.random() < 0.15:
+        case["noisy"] = rng.choice(["verbose", "verbose", "env"])
     r = rng.random()
     if r < 0.10:
         # a hostile name among ordinary arguments (or inside a directory argument)
@@ -464,7 +579,12 @@ def gen_case(rng):
     elif r < 0.22:
         # a write / rewriter fault on one regular file argument
         files = [a for a in args if tree.get(a, [""])[0] == "file"]
-        if files:
+        dirs = sorted(n for n, v in tree.items() if v[0] == "dir" and documented_safe(n)
+                      and (n in args or n.split("/")[0] in args))
+        if dirs and rng.random() < 0.3:
+            # os.listdir of a directory argument (or of a sub-directory below one) fails
+            case["faults"] = {"write": {}, "rw": {}, "list": {rng.choice(dirs): rng.choice(["EACCES", "EIO"])}}
+        elif files:
             a = rng.choice(files)
             faults = {"write": {}, "rw": {}}
             if rng.random() < 0.6:
